@@ -121,6 +121,7 @@ type Exec struct {
 	edgeReach map[[2]*ssa.BasicBlock]*Term
 	ghostPre  *State // state just before the call whose ghost updates are being evaluated (pre(...) there)
 	privCells []*ssa.Alloc // private slice variables of the function under verification (private.go)
+	privBoxes []*ssa.Alloc // private captured variables of the function under verification (private.go)
 }
 
 func NewExec(w *World, fn *ssa.Function, fc *FuncContract) *Exec {
